@@ -2,6 +2,7 @@ import QF.Drv.Hist
 import QF.Drv.Csv
 import QF.Drv.SortAdv
 import QF.Drv.Ryu
+import QF.Drv.Like
 /-
 qfdriver: replays a harness transcript (stdin) through the Lean model and spec.
 Output: one line per mismatch
@@ -16,6 +17,7 @@ structure DState where
   scn : String := "?"
   hist : HState := {}
   csv : CState := {}
+  like : LState := {}
   checks : Nat := 0
   mism : Nat := 0
   scenarios : Nat := 0
@@ -56,6 +58,10 @@ partial def loop (h : IO.FS.Stream) (st : DState) (lineNo : Nat) : IO DState := 
       loop h st (lineNo + 1)
     | "sortadv" =>
       let st ← emit st lineNo (sortAdvLine toks)
+      loop h st (lineNo + 1)
+    | "like" =>
+      let (ls, ms) := likeLine st.like toks
+      let st ← emit { st with like := ls } lineNo ms
       loop h st (lineNo + 1)
     | "ryu" =>
       let st ← emit st lineNo (ryuLine toks)
